@@ -818,6 +818,24 @@ def annotate(rng, d: Doc, p: float = 0.25) -> Doc:
     return d
 
 
+def add_exotic_media_operations(rng, d: Doc) -> Doc:
+    """Operations whose success response uses a media type generators rarely meet: YAML bodies, multipart/mixed streams,
+    JSON text sequences, XML. Not part of d.ops (no call plan, no expectation): for the checks that judge what is EMITTED -
+    imports, surfaces, compilation."""
+    objs = [n for n, e in d.sexp.items() if e.get("kind") == "object"]
+    sch = ref(rng.choice(objs)) if objs else {"type": "object", "properties": {"k": {"type": "string"}}}
+    medias = rng.sample(["application/yaml", "text/yaml", "application/x-yaml", "multipart/mixed", "application/json-seq", "application/xml",
+                         "text/csv", "application/vnd.acme.v2+yaml"], rng.randint(2, 4))
+    tags = sorted({t for o in d.ops for t in o.get("tags", [])} - {"default"})
+    for k, m in enumerate(medias):
+        op = {"operationId": f"getExotic{k}", "responses": {"200": {"description": "ok", "content": {m: {"schema": sch}}}}}
+        if tags and rng.random() < 0.7:
+            op["tags"] = [rng.choice(tags)]
+        d.doc["paths"][f"/opx{k}/exotic"] = {"get": op}
+    d.features.add("exotic_response_media")
+    return d
+
+
 def generate(rng, allow: set[str] | None = None, prof: dict | None = None) -> Doc:
     d = Gen(rng, allow, prof).build()
     if prof and rng.random() < prof.get("p_component_refs", 0.0):
